@@ -127,6 +127,32 @@ func bruteAt(c C16Case, i int) []int {
 	return out
 }
 
+// wantAll is the reference for many intervals and many queries: for every interval, in index
+// order, the queries it covers are found by binary search in the sorted query list (so each
+// answer comes out ascending). For small cases it is cross-checked against bruteAt.
+func wantAll(starts, ends, qs []int) [][]int {
+	out := make([][]int, len(qs))
+	for x := range starts {
+		if starts[x] >= ends[x] {
+			continue
+		}
+		lo, _ := slices.BinarySearch(qs, starts[x])
+		hi, _ := slices.BinarySearch(qs, ends[x])
+		for q := lo; q < hi; q++ {
+			out[q] = append(out[q], x)
+		}
+	}
+	if len(starts)*len(qs) <= 200000 {
+		c := C16Case{Starts: starts, Ends: ends}
+		for i, q := range qs {
+			if !slices.Equal(out[i], bruteAt(c, q)) {
+				panic(fmt.Sprintf("harness: the two reference models disagree at %d: %v vs %v", q, out[i], bruteAt(c, q)))
+			}
+		}
+	}
+	return out
+}
+
 func classifyC16(c C16Case, o *Obs) {
 	n := len(c.Starts)
 	overlap, empty, inverted, dup, touching, neg := false, false, false, false, false, false
@@ -140,7 +166,7 @@ func classifyC16(c C16Case, o *Obs) {
 		if c.Starts[i] < 0 || c.Ends[i] < 0 {
 			neg = true
 		}
-		for j := 0; j < i; j++ {
+		for j := max(0, i-3000); j < i; j++ { // (classification only; a window keeps it linear for huge lists)
 			if c.Starts[i] == c.Starts[j] && c.Ends[i] == c.Ends[j] {
 				dup = true
 			}
@@ -223,16 +249,16 @@ func checkC16(c C16Case, o *Obs) error {
 		}
 	}
 	qs := queryPoints(c)
-	o.Count("queries", 2*len(qs))
+	o.Count("queries", 3*len(qs))
+	wants := wantAll(c.Starts, c.Ends, qs)
 	var returned [][]int
-	for _, q := range qs {
+	for qi, q := range qs {
 		var got []int
 		if p := catch(func() { got = idx.At(q) }); p != nil {
-			return fmt.Errorf("At(%d) panicked: %v (starts=%v ends=%v)", q, p, c.Starts, c.Ends)
+			return fmt.Errorf("At(%d) panicked: %v (starts=%s ends=%s)", q, p, abbrevInts(c.Starts), abbrevInts(c.Ends))
 		}
-		want := bruteAt(c, q)
-		if !slices.Equal(got, want) {
-			return fmt.Errorf("NewIndex(%v,%v).At(%d) = %v, want %v", c.Starts, c.Ends, q, got, want)
+		if !slices.Equal(got, wants[qi]) {
+			return fmt.Errorf("NewIndex(%s,%s).At(%d) = %s, want %s", abbrevInts(c.Starts), abbrevInts(c.Ends), q, abbrevInts(got), abbrevInts(wants[qi]))
 		}
 		returned = append(returned, got)
 	}
@@ -243,14 +269,64 @@ func checkC16(c C16Case, o *Obs) error {
 			r[i] = -1
 		}
 	}
-	for _, q := range qs {
+	for qi, q := range qs {
 		got := idx.At(q)
-		want := bruteAt(c, q)
-		if !slices.Equal(got, want) {
-			return fmt.Errorf("after mutating slices returned earlier, NewIndex(%v,%v).At(%d) = %v, want %v", c.Starts, c.Ends, q, got, want)
+		if !slices.Equal(got, wants[qi]) {
+			return fmt.Errorf("after mutating slices returned earlier, NewIndex(%s,%s).At(%d) = %s, want %s", abbrevInts(c.Starts), abbrevInts(c.Ends), q, abbrevInts(got), abbrevInts(wants[qi]))
+		}
+	}
+	// The caller refills its two buffers with the next list (the next chromosome: same variables,
+	// same length, other contents) and builds the next index from them. That index answers for
+	// the new contents.
+	s2, e2 := make([]int, n), make([]int, n)
+	for i := 0; i < n; i++ {
+		s2[i], e2[i] = c.Starts[n-1-i], c.Ends[n-1-i]
+		if i%3 == 1 {
+			if y, ok := satAdd(e2[i], 2); ok {
+				e2[i] = y
+			}
+		}
+		if i%3 == 2 {
+			if y, ok := satAdd(s2[i], 1); ok {
+				s2[i] = y
+			}
+		}
+	}
+	// (the call right before the refill is one on the same two buffers, as in a loop over chromosomes)
+	var idx1b *regions.Index
+	if p := catch(func() { idx1b = regions.NewIndex(starts, ends) }); p != nil {
+		return fmt.Errorf("NewIndex(%s,%s) (called a second time with the same lists) panicked: %v", abbrevInts(c.Starts), abbrevInts(c.Ends), p)
+	}
+	for qi, q := range qs {
+		if got := idx1b.At(q); !slices.Equal(got, wants[qi]) {
+			return fmt.Errorf("NewIndex(%s,%s) called a second time with the same lists: At(%d) = %s, want %s", abbrevInts(c.Starts), abbrevInts(c.Ends), q, abbrevInts(got), abbrevInts(wants[qi]))
+		}
+	}
+	copy(starts, s2)
+	copy(ends, e2)
+	var idx2 *regions.Index
+	if p := catch(func() { idx2 = regions.NewIndex(starts, ends) }); p != nil {
+		return fmt.Errorf("NewIndex(%s,%s) (second call, the same two buffers refilled) panicked: %v", abbrevInts(s2), abbrevInts(e2), p)
+	}
+	wants2 := wantAll(s2, e2, qs)
+	for qi, q := range qs {
+		var got []int
+		if p := catch(func() { got = idx2.At(q) }); p != nil {
+			return fmt.Errorf("At(%d) panicked: %v (starts=%s ends=%s)", q, p, abbrevInts(s2), abbrevInts(e2))
+		}
+		if !slices.Equal(got, wants2[qi]) {
+			return fmt.Errorf("the caller's two buffers held %s / %s for a first NewIndex call and were then refilled with %s / %s for a second: the second index answers At(%d) = %s, want %s",
+				abbrevInts(c.Starts), abbrevInts(c.Ends), abbrevInts(s2), abbrevInts(e2), q, abbrevInts(got), abbrevInts(wants2[qi]))
 		}
 	}
 	return nil
+}
+
+func abbrevInts(a []int) string {
+	if len(a) <= 40 {
+		return fmt.Sprint(a)
+	}
+	return fmt.Sprintf("%v...(%d values)...%v", a[:12], len(a), a[len(a)-6:])
 }
 
 func exhaustiveC16(thorough bool, emit func(C16Case) bool) {
@@ -270,6 +346,45 @@ func exhaustiveC16(thorough bool, emit func(C16Case) bool) {
 			e = append(e, 520+d)
 		}
 		if !emit(C16Case{Starts: s, Ends: e, Queries: []int{0, 505, 20 * n}}) {
+			return
+		}
+	}
+	// deep pile-ups: k copies of one interval, for k around every multiple of 64 up to 1025 (with
+	// and without a few empty intervals in front, so that the covering serial numbers start at 0
+	// or not), and a pile-up of consecutive reads that grows to depth 300 and shrinks again
+	for _, k := range []int{63, 64, 65, 127, 128, 129, 191, 192, 193, 255, 256, 257, 258, 320, 321, 384, 385, 512, 513, 1024, 1025} {
+		for _, lead := range []int{0, 5} {
+			var s, e []int
+			for i := 0; i < lead; i++ {
+				s, e = append(s, 150), append(e, 150)
+			}
+			for i := 0; i < k; i++ {
+				s, e = append(s, 100), append(e, 200)
+			}
+			s, e = append(s, 150, 190), append(e, 160, 250)
+			if !emit(C16Case{Starts: s, Ends: e}) {
+				return
+			}
+		}
+	}
+	{
+		var s, e []int
+		for i := 0; i < 700; i++ {
+			s, e = append(s, 2*i), append(e, 2*i+600)
+		}
+		if !emit(C16Case{Starts: s, Ends: e}) {
+			return
+		}
+	}
+	// tens of thousands of intervals that touch: tiling windows, and back-to-back exon pairs
+	// separated by gaps; every boundary (and its neighbours) is queried
+	for _, n := range []int{16384, 20000, 40001} {
+		var s, e, s2, e2 []int
+		for i := 0; i < n; i++ {
+			s, e = append(s, 10*i), append(e, 10*i+10)
+			s2, e2 = append(s2, 30*(i/2)+10*(i%2)), append(e2, 30*(i/2)+10*(i%2)+10)
+		}
+		if !emit(C16Case{Starts: s, Ends: e}) || !emit(C16Case{Starts: s2, Ends: e2}) {
 			return
 		}
 	}
